@@ -18,12 +18,15 @@ CHECKS = {
             "(symbolic weights, NaN/inf where stated) of streams n<=2..3 on every catalogue tree.", ""),
     "C02": ("DESIGN.md 2/C02", "After n<=2..3 symbolic fills the public state of every node equals an independent reference semantics "
             "(engine/refsem.py) evaluated on the same symbolic values; order independence; non-positive/NaN weights are no-ops; IEEE routing "
-            "of Bin (flows iff comparisons, monotone index, every index attained) by SMT queries for every Float64.", " + AST->SMT-LIB kernel encoder (cvc5, z3)"),
+            "of Bin (flows iff comparisons, monotone index, every index attained, index == documented formula) and of CentrallyBin (nearest-centre "
+            "rule with the documented cut) by SMT queries for every Float64.", " + AST->SMT-LIB kernel encoder (cvc5, z3)"),
     "C03": ("DESIGN.md 2/C03", "fill.numpy (through a validated model of the numpy calls histogrammar makes) equals per-row fill for "
-            "symbolic batches n<=2..3, omitted / scalar / array weights (zeros included), NaN/inf rows, split batches; inputs unmodified.",
+            "symbolic batches n<=2..3, omitted / scalar / array weights (zeros included), NaN/inf rows, split batches, merges between batches; inputs "
+            "unmodified. Supplemented (sampled, labelled so in evidence) by concrete real-numpy batches: caller arrays before/after, edge values +-ulp.",
             " + numpy stand-in (engine/npmodel.py)"),
     "C04": ("DESIGN.md 2/C04", "toJson strictness, fromJson(toJson) fixpoint and interchangeability of the reload under +, *, zero, copy, "
-            "for every primitive in every child/flow slot (empty states enumerated, filled/merged states with symbolic data).", ""),
+            "for every primitive in every child/flow slot (empty states enumerated, filled/merged states with symbolic data), mixed quantity names; "
+            "real-numpy column dtypes sampled.", ""),
     "C05": ("DESIGN.md 2/C05", "(a) for every Float64 x and each bin configuration: exactly one target, index in range, no exception -- "
             "SMT queries (QF_FP) generated from the kernels' source, cvc5 and z3 must agree; (b) conservation invariants after every step "
             "of operation histories with symbolic data/weights/factors.", " + AST->SMT-LIB kernel encoder (cvc5, z3)"),
@@ -32,21 +35,23 @@ CHECKS = {
     "C07": ("DESIGN.md 2/C07", "a += b yields exactly (old a)+b, keeps identity, leaves b unchanged and shares no state afterwards, "
             "for symbolic streams on every catalogue tree.", ""),
     "C08": ("DESIGN.md 2/C08", "h*f == f*h == refill with weights*f for symbolic f>0 (exact over the reals); multiplicativity, *1, *2, "
-            "distributivity, JSON commutation, f<=0/NaN gives the empty aggregator, scaled result stays fillable/mergeable/hashable.", ""),
+            "distributivity, JSON commutation, f<=0/NaN gives the empty aggregator, scaled result stays fillable/mergeable/hashable; IEEE entries "
+            "== f*entries; numpy scalar factors sampled.", ""),
     "C09": ("DESIGN.md 2/C09", "== holds exactly when the single differing slot (numeric value incl. NaN/inf, key, length, type) is the same "
             "on both sides; symmetry, != negation, reflexivity, copies and JSON reloads equal; tolerances only widen.", ""),
     "C10": ("DESIGN.md 2/C10", "+ and += raise for every ordered pair of different primitives and for any differing structural parameter "
             "(symbolic on both sides) or nested child; rejected merges leave operands unchanged.", ""),
     "C11": ("DESIGN.md 2/C11", "pickle round trip keeps content and equality and the clone stays live: symbolic continuation (2 fills, "
-            "merge) on clone and original agree, for 6 quantity kinds x 10 shapes; pre-pickle states are solver-chosen concretes (stated).", ""),
+            "merge) on clone and original agree, for 6 quantity kinds x 15 shapes; pre-pickle states are solver-chosen concretes (stated).", ""),
     "C12": ("DESIGN.md 2/C12", "For single-path trees up to depth 3, symbolic failure selectors (which record fails, at which level, by "
             "exception or wrong type): state unchanged by the failing call and final state equals that of the surviving records.", ""),
     "C13": ("DESIGN.md 2/C13", "num_bins / bin_edges / bin_centers / bin_entries mutually consistent for symbolic sub-ranges, contiguous "
             "with the full partition and covering the request; bin_entries(xvalues) and reported edges agree with where fill put a "
             "symbolic probe; 2-D grid totals; Categorize labels/entries/mpv.", " + numpy stand-in (engine/npmodel.py)"),
     "C15": ("DESIGN.md 2/C15", "Every position of every valid unit document replaced by a typed symbolic hole, each key deleted, keys "
-            "added: fromJson raises or returns an aggregator that re-serialises to the mutated document; valid documents accepted.", ""),
-    "C16": ("DESIGN.md 2/C16", "One object installed at two symbolic positions of 9 skeletons is rejected with ContainerException before "
+            "added: fromJson raises or returns an aggregator that re-serialises to the mutated document; documents produced by toJson from empty, "
+            "scaled, NaN-filled, build()/ed()/toImmutable() states are accepted and stable.", ""),
+    "C16": ("DESIGN.md 2/C16", "One object installed at two symbolic positions of 12 skeletons is rejected with ContainerException before "
             "any state change, on first and later fills; trees sharing only never-filled templates are accepted.", ""),
     "C17": ("DESIGN.md 2/C17", "All application orders of named/cached/serializable give equal wrappers; cached functions return f(args) "
             "for 3-6 calls with symbolic arguments; 20 string expressions equal their Python functions on symbolic records.", ""),
